@@ -497,6 +497,20 @@ theorem bin_preserve_power_sum (s : Spectrum) (sym : Bool) (fl fr : ℚ) (c raw 
     rw [sumL_eq_sum, hm, ← sumL_eq_sum]
     field_simp
 
+/-- power preservation with a supplied integral `I` (the Simpson case: `I` comes from `scipy.integrate.simpson`, not
+modelled): the normalised bins of either rule sum to `I`, provided the un-normalised bins do not sum to zero -/
+theorem bin_preserve_power_sum_given (s : Spectrum) (simps sym intC : Bool) (fl fr I : ℚ) (c raw : List ℚ)
+    (hraw : binRaw s simps sym fl fr c intC = .ok raw) (h : sumL raw ≠ 0) :
+    ∃ bins, bin s simps sym fl fr (some (some I)) c intC = .ok bins ∧ sumL bins = I := by
+  refine ⟨raw.map (· * (I / sumL raw)), ?_, ?_⟩
+  · simp [bin, hraw, binNorm]
+  · have hm : ∀ (l : List ℚ) (k : ℚ), (l.map (· * k)).sum = l.sum * k := by
+      intro l k; induction l with
+      | nil => simp
+      | cons x l ih => simp [ih, add_mul]
+    rw [sumL_eq_sum, hm, ← sumL_eq_sum]
+    field_simp
+
 /-! ### crop keeps exactly the closed range -/
 
 /-- crop keeps exactly the samples inside the closed requested range (whether or not it then raises on an emptied grid) -/
